@@ -1007,3 +1007,79 @@ CTOR_FILES = {'base': 'base.py', 'content': 'content.py', 'seg_content': 'seg/co
               'legacy_sop': 'legacy/sop.py', 'volume': 'volume.py'}
 for _tag, _file in CTOR_FILES.items():
     TARGETS[f'T20ctor_{_tag}'] = {'file': _file, 'build': make_ctor_target(_tag), 'imports': ['HdVerif.Model.Aliasing']}
+
+
+# ----------------------------------------------------------------------------------------------- DS sites (T20ds)
+def _classify_ds(node, fn, kw, depth=0):
+    """how the right-hand side of an assignment to a DS attribute obtains its value:
+    'formatted' (format_number_as_ds / DS(auto_format=True), element-wise for lists), 'copied' (the value of the same attribute
+    of another data set, possibly deep-copied), 'constant' (a literal whose repr fits 16 characters), else 'raw'"""
+    if isinstance(node, ast.Call):
+        f = ast.unparse(node.func)
+        if f.endswith('format_number_as_ds'):
+            return 'formatted'
+        if f in ('DS', 'pydicom.valuerep.DS', 'valuerep.DS') and any(
+                k.arg == 'auto_format' and isinstance(k.value, ast.Constant) and k.value.value is True for k in node.keywords):
+            return 'formatted'
+        if f in ('deepcopy', 'copy.deepcopy', 'cast') and node.args:
+            return _classify_ds(node.args[-1], fn, kw, depth)
+        return 'raw'
+    if isinstance(node, (ast.List, ast.Tuple)):
+        kinds = {_classify_ds(e, fn, kw, depth) for e in node.elts}
+        return kinds.pop() if len(kinds) == 1 else ('raw' if 'raw' in kinds else 'formatted')
+    if isinstance(node, ast.ListComp):
+        return _classify_ds(node.elt, fn, kw, depth)
+    if isinstance(node, ast.Attribute):
+        return 'copied' if node.attr == kw else 'raw'
+    if isinstance(node, ast.Subscript):
+        return _classify_ds(node.value, fn, kw, depth)
+    if isinstance(node, ast.Constant) and isinstance(node.value, (int, float)) and not isinstance(node.value, bool):
+        return 'constant' if len(repr(node.value)) <= 16 else 'raw'
+    if isinstance(node, ast.Name) and depth < 3 and fn is not None:
+        kinds = set()
+        for a in ast.walk(fn):
+            if isinstance(a, ast.Assign) and any(isinstance(t, ast.Name) and t.id == node.id for t in a.targets):
+                kinds.add(_classify_ds(a.value, fn, kw, depth + 1))
+        if kinds and 'raw' not in kinds:
+            return kinds.pop() if len(kinds) == 1 else 'formatted'
+        return 'raw'
+    return 'raw'
+
+
+def build_ds_sites(_tree):
+    """every assignment `<obj>.<keyword> = <rhs>` of the package whose keyword has VR DS, with the way the value is obtained"""
+    from pydicom.datadict import dictionary_VR, tag_for_keyword
+    root = os.path.join(os.environ.get('HD_REPO', '/repo'), 'src', 'highdicom')
+    rows, sig = [], []
+    for dp, _, fs in sorted(os.walk(root)):
+        for f in sorted(fs):
+            if not f.endswith('.py'):
+                continue
+            p = os.path.join(dp, f)
+            rel = os.path.relpath(p, root)
+            tree = ast.parse(open(p).read())
+            funcs = [n for n in ast.walk(tree) if isinstance(n, (ast.FunctionDef, ast.AsyncFunctionDef))]
+            for fn in funcs:
+                for a in ast.walk(fn):
+                    if isinstance(a, ast.Assign) and len(a.targets) == 1 and isinstance(a.targets[0], ast.Attribute):
+                        kw = a.targets[0].attr
+                        tg = tag_for_keyword(kw)
+                        if tg is None or dictionary_VR(tg) != 'DS':
+                            continue
+                        # the innermost function containing the statement
+                        inner = [g for g in funcs if g is not fn and any(x is a for x in ast.walk(g)) and any(x is g for x in ast.walk(fn))]
+                        if inner:
+                            continue
+                        kind = _classify_ds(a.value, fn, kw)
+                        rows.append(f'("{rel}: {fn.name}: {kw}", "{kind}")')
+                        sig.append((rel, fn.name, kw, kind, ast.unparse(a.value)))
+    if not rows:
+        raise Unsupported('no assignment to a DS attribute found in the package')
+    text = ('/-- every assignment to an attribute of value representation DS in the package: (site, how the value is obtained:\n'
+            '`formatted` = through `format_number_as_ds` / `DS(auto_format=True)`, element by element for lists; `copied` = the value of the\n'
+            'same attribute of another data set; `constant` = a literal of at most 16 characters; `raw` = anything else) -/\n'
+            'def dsSites : List (String × String) := [\n  ' + ',\n  '.join(rows) + '\n]')
+    return text, hashlib.sha256(repr(sig).encode()).hexdigest()
+
+
+TARGETS['T20ds'] = {'file': 'base.py', 'build': build_ds_sites}
